@@ -21,6 +21,10 @@ def gen_cases(rng, tier):
     for k in range(1, depth + 1):
         for seq in itertools.product(core, repeat=k):
             cases.append(list(seq))
+    # the same on a directory without a lock file (a Backup copy, a directory no writer ever opened)
+    for k in range(1, 3 if tier == 'quick' else 4):
+        for seq in itertools.product(core, repeat=k):
+            cases.append(['rmlock'] + list(seq))
     n = 300 if tier == 'quick' else 6000
     for i in range(n):
         ln = rng.randrange(4, 11)
@@ -30,6 +34,8 @@ def gen_cases(rng, tier):
         if rng.random() < 0.1:
             j = rng.randrange(len(seq))
             seq[j:j] = ['rmdir 1', rng.choice(['o 0 0 0', 'o 1 1 0']), 'rmdir 0']
+        if rng.random() < 0.2:
+            seq = ['rmlock'] + seq
         cases.append(seq)
     # a torn tail on the head log: read-only opens (plain, Check, Recover, also from a child process) must refuse or
     # ignore it, never repair it
@@ -138,7 +144,7 @@ def c19_extra(pid, tier, seed):
                     lastsum, ro_only_since = s, True
                 elif f[0] == 'tear':
                     lastsum = None
-                elif f[0] in ('corrupt', 'prep', 'rmdir'):
+                elif f[0] in ('corrupt', 'prep', 'rmdir', 'rmlock'):
                     pass
                 if bad:
                     viol.append(('P', '# C19 violated: %s\n# sequence (flock language: o <handle> <readonly> <check> [child], c close, p publish, d delete):\n%s\n# last result: %s\n' % (
